@@ -32,6 +32,14 @@ def gen_case(rng):
     if rng.random() < 0.15 and currents:      # round numbers: exact boundary representable
         m['i0'] = ['Current', rng.choice([0.7, 0.1, 0.25, 1.0, 0.0]), 'A']
         m['imax'] = ['Current', rng.choice([3.0, 2.0, 4.0, 5.0]), 'A']
+    if rng.random() < 0.12:                   # exactly one of the two currents given: incomplete current data
+        if rng.random() < 0.5:
+            m['i0'] = scen.in_unit(rng, 'Current', i0) if m['i0'] is None else m['i0']
+            m['imax'] = None
+        else:
+            m['imax'] = scen.in_unit(rng, 'Current', imax) if m['imax'] is None else m['imax']
+            m['i0'] = None
+        currents = False
     r = rng.random()
     if currents and r < 0.45:
         pmin = (U.Current(*m['i0'][1:]) / U.Current(*m['imax'][1:]))
@@ -50,7 +58,9 @@ def run_impl(c):
     m = c['motor']
     kw = {}
     if m['i0'] is not None:
-        kw = dict(no_load_electric_current=scen.mkq(m['i0']), maximum_electric_current=scen.mkq(m['imax']))
+        kw['no_load_electric_current'] = scen.mkq(m['i0'])
+    if m['imax'] is not None:
+        kw['maximum_electric_current'] = scen.mkq(m['imax'])
     try:
         mot = DCMotor(name='m', inertia_moment=scen.mkq(m['J']), no_load_speed=scen.mkq(m['w0']), maximum_torque=scen.mkq(m['Tmax']), **kw)
     except Exception as e:  # noqa
@@ -81,7 +91,7 @@ def case_coq(c, r):
 
 def nontrivial(c):
     m = c['motor']
-    if m['i0'] is None:
+    if m['i0'] is None or m['imax'] is None:
         return True
     pmin = m['i0'][1] * S.ffactor('Current', m['i0'][2]) / (m['imax'][1] * S.ffactor('Current', m['imax'][2]))
     return abs(c['pwm']) > pmin or abs(abs(c['pwm']) - pmin) <= 4e-16 * max(pmin, 1e-300)
@@ -113,7 +123,7 @@ def correspondence(pid, tier, seed):
                       f'(first: {json.dumps(failing[0], default=str)[:400]}; code 6 = torque, 9 = current, 12-14 = exception)')
     dist = {}
     for c, r in pairs:
-        k = ('currents' if c['motor']['i0'] else 'no-currents') + ':' + (r['err'] or 'ok')
+        k = ('currents' if c['motor']['i0'] and c['motor']['imax'] else 'one-current' if c['motor']['i0'] or c['motor']['imax'] else 'no-currents') + ':' + (r['err'] or 'ok')
         dist[k] = dist.get(k, 0) + 1
     nt = len({lib.sha(c) for c, r in pairs if nontrivial(c)})
     return dict(ok=not broken, evaluations=len(pairs), nontrivial=nt, samples=[dict(case=c, impl=r) for c, r in pairs[:4]], rule=RULE,
@@ -156,7 +166,7 @@ def search(pid, tier, seed, escalate, hints):
         # mirror symmetry: reversing both D and w reverses torque and current
         c2 = dict(c, pwm=-c['pwm'], spd=[c['spd'][0], -c['spd'][1], c['spd'][2]])
         r2 = run_impl(c2)
-        if c['motor']['i0'] is not None and r['err'] is None and r2.get('err') is None and not r2.get('skip'):
+        if c['motor']['i0'] is not None and c['motor']['imax'] is not None and r['err'] is None and r2.get('err') is None and not r2.get('skip'):
             if not math.isnan(r['T'][0]) and (r['T'][0] != -r2['T'][0] or (r['I'] is not None and r['I'][0] != -r2['I'][0])):
                 out.append(dict(cls='mirror', what=f'reversing duty cycle and speed does not reverse torque/current exactly: {r["T"]}, {r["I"]} vs {r2["T"]}, {r2["I"]}', case=c))
         if len([x for x in out if x['cls'] != 'D15']) >= 5:
